@@ -709,6 +709,18 @@ func builtinIntrinsics() map[string]Intrinsic {
 	I["path/filepath.Dir"], I["path.Dir"] = pathFn(filepath.Dir), pathFn(filepath.Dir)
 	I["path/filepath.Ext"], I["path.Ext"] = pathFn(filepath.Ext), pathFn(filepath.Ext)
 	I["path/filepath.Clean"], I["path.Clean"] = pathFn(filepath.Clean), pathFn(filepath.Clean)
+	I["path/filepath.Rel"] = func(m *Machine, fn *ssa.Function, a []Value) Value {
+		base, ok1 := concStr(a[0])
+		targ, ok2 := concStr(a[1])
+		if !ok1 || !ok2 {
+			m.unsupported("filepath.Rel of a symbolic path")
+		}
+		r, err := filepath.Rel(base, targ)
+		if err != nil {
+			return TupleV{"", m.newError(err.Error(), nil)}
+		}
+		return TupleV{r, IfaceV{}}
+	}
 	I["encoding/json.Marshal"] = func(m *Machine, fn *ssa.Function, a []Value) Value {
 		// a concrete []string is marshalled for real (part-name manifests); anything else is opaque
 		if iv, ok := a[0].(IfaceV); ok {
